@@ -26,6 +26,7 @@ type Event struct {
 	Val   *Value            `json:"val,omitempty"`
 	Panic string            `json:"panic,omitempty"`
 	Msg   string            `json:"msg,omitempty"`
+	Ops   []int             `json:"ops,omitempty"` // family vm: the cursor movements (code, from, to)*
 }
 
 type recorder struct {
@@ -70,6 +71,12 @@ func (ev *Event) MarshalJSON() ([]byte, error) {
 		}
 		m["ids"] = ev.IDs
 	}
+	if ev.Ev == "SelectRec" {
+		if ev.Ops == nil {
+			ev.Ops = []int{}
+		}
+		m["ops"] = ev.Ops
+	}
 	return json.Marshal(m)
 }
 
@@ -111,6 +118,30 @@ func (r *recorder) record(d *vdoc.Doc, e *xast.Expr, o xast.Opts, ctx int, mode 
 		ev.Val = out.Val
 	default:
 		ev.IDs = out.IDs
+	}
+	r.emit(ev)
+}
+
+// recordVM runs Select with a recording navigator and logs the delivered sequence and every cursor movement.
+func (r *recorder) recordVM(d *vdoc.Doc, e *xast.Expr, o xast.Opts, ctx int) {
+	text := xast.Print(e, o)
+	ex, err, co := compile(text, nil)
+	if err != nil || ex == nil || co.Panic != "" {
+		return // the grammar only produces valid expressions; Compile failures are judged by the preds family
+	}
+	var log []vdoc.Move
+	var got Outcome
+	func() {
+		defer guard(&got)
+		it := ex.Select(d.AtRec(ctx, &log))
+		got.IDs, got.Runaway = drain(it, runawayLimit)
+	}()
+	if got.Panic != "" || got.Runaway || len(log) > 1500 {
+		return
+	}
+	ev := &Event{Ev: "SelectRec", D: d, E: e, X: text, Ctx: ctx, IDs: got.IDs, Ops: make([]int, 0, 3*len(log))}
+	for _, m := range log {
+		ev.Ops = append(ev.Ops, vmOpCode[m.Op], m.From, m.To)
 	}
 	r.emit(ev)
 }
@@ -163,6 +194,19 @@ var families = map[string]familyFn{
 		o := xast.Opts{Abbrev: g.R.Intn(2) == 0, Space: " "}
 		for k := 0; k < 2; k++ {
 			r.record(d, e, o, 1+g.R.Intn(d.Len()), "once", nil, false, k == 1)
+		}
+	},
+	// the same grammar (and unions of such paths) run with a RECORDING navigator: delivery sequence and cursor movements,
+	// validated by TLC against the implementation-shaped model (XVMBatch.tla)
+	"vm": func(g *gen.G, r *recorder, maxNodes, maxSteps int) {
+		d := g.Doc(maxNodes)
+		e := g.PredPath()
+		if g.R.Intn(6) == 0 {
+			e = &xast.Expr{T: "union", L: e, R: g.PredPath()}
+		}
+		o := xast.Opts{Abbrev: g.R.Intn(2) == 0, Space: " "}
+		for k := 0; k < 2; k++ {
+			r.recordVM(d, e, o, 1+g.R.Intn(d.Len()))
 		}
 	},
 	// paths with boolean / positional predicates inside the C02 / C03 fragments
